@@ -270,7 +270,7 @@ def cases(tier, seed):
     add("segment_x_free_plane", mk_segment_plane("segment"), tiers=Q)
     add("free_segment_x_plane", mk_segment_plane("plane"), tiers=T)
     add("segment_plane_3d", mk_segment_plane(None), tiers=T)
-    polys = lattice_polygons(seed, 10 if tier == "quick" else 80, sizes=(3, 4, 4, 5), B=2)
+    polys = lattice_polygons(seed, 10 if tier == "quick" else 40, sizes=(3, 4, 4, 5), B=2)
     for i, poly in enumerate(polys):
         add(f"polygon_line_{i:02d}", mk_polygon_line(poly), tiers=Q, max_paths=2000)
     for i, poly in enumerate(polys[:2] if tier == "quick" else polys[:20]):
